@@ -54,6 +54,19 @@ def run(tier):
         sp = os.path.join(wd, "session_%s.json" % cfg)
         conform(cfg, ["stream-session", sp, ck.seed, 200 if thorough else 40, 60])
         ck.add_report(json.load(open(sp)), prefix="[%s] " % cfg if cfg != "stable" else "")
+    # 6. first messages crafted so that the Poly1305 accumulator reaches a rare value inside or at the end of the MAC
+    import polycraft
+    sv = polycraft.stream_vectors(5 if thorough else 2)
+    vf = os.path.join(wd, "polycraft_stream.json")
+    json.dump(sv, open(vf, "w"))
+    for cfg in ["stable", "nightly"]:
+        o = os.path.join(wd, "polycraft_%s.json" % cfg)
+        conform(cfg, ["stream-vectors", vf, o])
+        r_ = json.load(open(o))
+        if any(f["key"].startswith("HARNESS") for f in r_["failures"]):
+            raise ToolError("crafted stream vectors disagree with libsodium: %s" % json.dumps(r_["failures"][0])[:500])
+        ck.add_report(r_, prefix="[%s] " % cfg if cfg != "stable" else "")
+    ck.cov["crafted_poly1305_corner_messages"] = len(sv)
     ck.cov["traces_validated_against_impl"] = ntr
     ck.cov["trace_events"] = nev
     ck.cov["evaluations"] += nev
